@@ -4,8 +4,10 @@
 
   Real code (parse.go): `SoyFile` starts `lex(name, text)` and defers `t.recover`; on a
   non-runtime panic (every `t.errorf`) `recover` calls `t.lex.drain()`; after a successful
-  `itemList(itemEOF)` nothing is drained — the parser has received the EOF item, the last
-  thing the lexer sends before it closes the channel.  `parseQuotedExpr` starts
+  `itemList(itemEOF)` the parser has received the EOF item, the last thing the lexer sends before
+  it closes the channel — and since /repo d0c22f5 `SoyFile` drains there too, so the scanner is
+  gone (not merely about to exit) when the call returns: `fileEntry_drained`, which needs NO
+  assumption on the token list.  `parseQuotedExpr` starts
   `lexExpr("", str)` and `defer tt.lex.drain()`s it on every way out.
 
   With the channel transition system of Model/Conc.lean (`producer_exits_iff`, Props/C18.lean:
@@ -66,6 +68,20 @@ theorem fileEntry_drains (pf : Bytes → Option UInt64) (items : List Item) (hel
   · exact Or.inr (by omega)
   · exact Or.inl hd
   · rcases hres with ⟨ns, h⟩ | ⟨p, h⟩ <;> rw [hp] at h <;> simp at h
+
+/-- every normal return of `parse.SoyFile` — a tree or an error — HAS CALLED drain, on any token list
+    whatever (since /repo d0c22f5 also after a successful parse) -/
+theorem fileEntry_drained (pf : Bytes → Option UInt64) (ef : Nat) (items : List Item)
+    (hres : (∃ ns, (fileEntry pf ef items).result = .ok ns) ∨ (∃ p, (fileEntry pf ef items).result = .error (.err p))) :
+    (fileEntry pf ef items).drainCalled = true ∧ (fileEntry pf ef items).drained = true := by
+  unfold fileEntry at hres ⊢
+  simp only [StateT.run] at hres ⊢
+  split
+  · exact ⟨rfl, rfl⟩
+  · rename_i he; simp only [he] at hres; rcases hres with ⟨_, h⟩ | ⟨_, h⟩ <;> simp at h
+  · exact ⟨rfl, rfl⟩
+  · rename_i he; simp only [he] at hres; rcases hres with ⟨_, h⟩ | ⟨_, h⟩ <;> simp at h
+  · rename_i he; simp only [he] at hres; rcases hres with ⟨_, h⟩ | ⟨_, h⟩ <;> simp at h
 
 /-- … hence, by `producer_exits_iff`, the lexer goroutine of that call has exited in every
     interleaving (`k` = the receives the parser performed, at least `received`) -/
@@ -173,8 +189,8 @@ example : (fileEntry (fun _ => none) 104 [⟨.tLeftDelim, 1, [123]⟩, ⟨.tDoll
     (fileEntry (fun _ => none) 104 [⟨.tLeftDelim, 1, [123]⟩, ⟨.tDollarIdent, 3, [36, 120]⟩, ⟨.tAdd, 5, [43]⟩,
       ⟨.tRightDelim, 6, [125]⟩, ⟨.tEOF, 6, []⟩]).drainCalled = true := ⟨by rfl, by rfl⟩
 
-/-- `hi`: success without a drain, every item received -/
-example : (fileEntry (fun _ => none) 80 [⟨.tText, 2, [104, 105]⟩, ⟨.tEOF, 2, []⟩]).drainCalled = false ∧
+/-- `hi`: success — every item received, and the channel drained before SoyFile returns (/repo d0c22f5) -/
+example : (fileEntry (fun _ => none) 80 [⟨.tText, 2, [104, 105]⟩, ⟨.tEOF, 2, []⟩]).drainCalled = true ∧
     (fileEntry (fun _ => none) 80 [⟨.tText, 2, [104, 105]⟩, ⟨.tEOF, 2, []⟩]).received = 2 := ⟨by rfl, by rfl⟩
 
 end SoyVerif.Props.C18
